@@ -201,6 +201,7 @@ def _alarm(signum, frame):
 
 
 _MOD = None
+_NUNITS = 0
 _UNIT_TIMEOUT = 600
 _FINDINGS = None
 
@@ -238,6 +239,16 @@ def _run_unit(args):
     signal.signal(signal.SIGALRM, _alarm)
     signal.alarm(_UNIT_TIMEOUT)
     case = None
+    stride = 2 if _NUNITS <= 200 else max(2, _NUNITS // 100)
+    if idx % stride == 1 and getattr(mod, "WARMUP", True):
+        # every second unit starts from a non-initial state: a history of ordinary operations comes first
+        try:
+            from fmc import warmup
+
+            with quiet():
+                warmup.run()
+        except Exception:
+            pass
     try:
         for case in mod.expand(unit):
             nbefore = len(acc.viol)
@@ -276,8 +287,9 @@ def _recheck_case(case, clause):
 
 def run_units(mod, units, nproc=None):
     """Execute every unit (in parallel, deterministic merge order)."""
-    global _MOD
+    global _MOD, _NUNITS
     _MOD = mod
+    _NUNITS = len(units)
     total = Acc()
     nproc = nproc or NPROC
     if nproc <= 1 or len(units) <= 1:
